@@ -3,9 +3,9 @@ from core import Unit as U
 ORACLE = ["sha256 compression function reached through hash_ctx->fn_sha256_compression (verif_compress: logging oracle, havocs s[0..7])"]
 UNITS = [
     U("C05.sha256_write", ["C05"], "harness/C05/hash_write.c", "h_write", assumed=ORACLE,
-      functions=["secp256k1_sha256_write"], timeout=600, min_obl=50, unwind=66, replay=False,
+      functions=["secp256k1_sha256_write"], timeout=600, min_obl=50, unwind=130, replay=False,
       note="stream lemma: len fully symbolic (<= 2^48), bytes symbolic; compression abstracted by the logging oracle"),
     U("C05.sha256_write_split", ["C05"], "harness/C05/hash_write.c", "h_write2", assumed=ORACLE,
-      functions=["secp256k1_sha256_write"], timeout=600, min_obl=50, unwind=66, replay=False,
+      functions=["secp256k1_sha256_write"], timeout=600, min_obl=50, unwind=130, replay=False,
       note="two-write lemma on the real code: write(a);write(b) delivers the same blocks/tail/count as write(a||b), all la, lb"),
 ]
